@@ -8,6 +8,7 @@ typed items (coq/gen/Gen_vinegar.v), all tied in coq/proofs/VinegarTie.v:
   load_lookup_mode        getattr (runs a module-level __getattr__, PEP 562) or __dict__ lookup at the sys.modules leaf
   load_class_guard ..     isinstance/issubclass guard, cls.__new__(cls), constants
   box_exc_map ..          which config keys feed dump()/load(), their defaults, what is re-raised locally
+  dispatch_delivers_rebuild_failure   does a failure of _unbox_exc reach the request it answers (new _dispatch_response) or escape _dispatch?
 shape items: the rest of dump() after the fast path, load(), _get_exception_class, _box_exc, _unbox_exc,
 AsyncResult.value."""
 from .core import *
@@ -367,16 +368,32 @@ def translate(repo):
         if sends != 1:
             raise Unrecognised("_dispatch_request does not send the boxed exception exactly once")
         out.append(typed("routed_locally", "list (string * string)", pair(routed)))
-        # _dispatch: MSG_EXCEPTION -> _unbox_exc -> callback(is_exc=True)
+        # _dispatch: MSG_EXCEPTION -> _unbox_exc -> callback(is_exc=True); either inline (a failure of _unbox_exc escapes _dispatch)
+        # or through _dispatch_response, which delivers a rebuild failure to the request it answers (EOFError still propagates)
         dp = find_func(conn, "_dispatch")
-        found = False
+        found, delivers = False, False
         for n in ast.walk(dp):
             if isinstance(n, ast.If) and u(n.test) == "msg == consts.MSG_EXCEPTION":
-                if [u(x) for x in n.body] != ["obj = self._unbox_exc(args)", "self._seq_request_callback(msg, seq, True, obj)"]:
+                body = [u(x) for x in n.body]
+                if body == ["obj = self._unbox_exc(args)", "self._seq_request_callback(msg, seq, True, obj)"]:
+                    delivers = False
+                elif body == ["self._dispatch_response(msg, seq, True, args)"]:
+                    hf = find_func(conn, "_dispatch_response")
+                    if [a.arg for a in hf.args.args] != ["self", "msg", "seq", "is_exc", "args"]:
+                        raise Unrecognised("_dispatch_response signature")
+                    hb = strip_doc(hf.body)
+                    want_try = ("try:\n    obj = self._unbox_exc(args) if is_exc else self._unbox(args)\nexcept EOFError:\n    raise\n"
+                                "except Exception:\n    is_exc, obj = (True, sys.exc_info()[1])")
+                    got_try = u(hb[0]).replace("is_exc, obj = True, sys.exc_info()[1]", "is_exc, obj = (True, sys.exc_info()[1])") if hb else ""
+                    if len(hb) != 2 or got_try != want_try or u(hb[1]) != "self._seq_request_callback(msg, seq, is_exc, obj)":
+                        raise Unrecognised("_dispatch_response body: " + u(hf))
+                    delivers = True
+                else:
                     raise Unrecognised("_dispatch MSG_EXCEPTION branch")
                 found = True
         if not found:
             raise Unrecognised("_dispatch has no MSG_EXCEPTION branch")
+        out.append(typed("dispatch_delivers_rebuild_failure", "bool", coq_bool(delivers)))
         out.append(typed("dispatch_exception_unboxes", "bool", "true"))
         return out
     guarded(protocol_facts)
